@@ -36,6 +36,9 @@ func loadAll() (*Loaded, *ContractSet, error) {
 		return nil, nil, err
 	}
 	cs.applySweeps()
+	if len(cs.LoadErrors) > 0 {
+		return nil, nil, fmt.Errorf("%s", strings.Join(cs.LoadErrors, "; "))
+	}
 	return ld, cs, nil
 }
 
